@@ -686,6 +686,63 @@ def run(prog, pid, clauses):
         out.append(ob("reset-precedes-every-statement-parse", not problems, dict(call_sites=sites, offenders=problems),
                       {view.methods[m].key for m in ("process_line", "parse_data", "process_statement") if m in view.methods}, pid))
 
+    if "alter-handlers-mutate-in-place" in clauses:
+        # C04 / C03: the dict reported for a table is built (TableData.to_dict) when the CREATE TABLE record is processed
+        # and shares the table's field OBJECTS (columns list, alter dict, index list, ...); an ALTER / INDEX that follows
+        # reaches the reported dict only through in-place mutation of those objects.  Obligation: no method on the path of
+        # an ALTER / INDEX record (Output.add_index_to_table, Output.add_alter_to_table and everything reachable from
+        # BaseData.append_statement_information_to_table) REBINDS an attribute of the table (`self.x = ...` /
+        # `target_table.x = ...`), and to_dict hands out the field values themselves (no copy).
+        bad, funcs = [], set()
+        bd_mod = PKG + ".output.base_data"
+        bd = prog.classes.get(bd_mod, {}).get("BaseData")
+        td = prog.classes.get(PKG + ".output.table_data", {}).get("TableData")
+        oc = prog.classes.get(PKG + ".output.core", {}).get("Output")
+        if bd is None or oc is None or "append_statement_information_to_table" not in bd.methods:
+            bad.append("BaseData.append_statement_information_to_table / Output not found")
+        else:
+            methods = dict(bd.methods)
+            if td is not None:
+                methods.update(td.methods)
+            seen, todo = set(), ["append_statement_information_to_table"]
+            while todo:
+                m = todo.pop()
+                if m in seen or m not in methods:
+                    continue
+                seen.add(m)
+                for n in ast.walk(methods[m].node):
+                    if isinstance(n, ast.Call) and attr_path(n.func) and attr_path(n.func)[0] == "self" and len(attr_path(n.func)) == 2:
+                        todo.append(attr_path(n.func)[1])
+            for m in sorted(seen):
+                funcs.add(methods[m].key)
+                for n in ast.walk(methods[m].node):
+                    tgts = n.targets if isinstance(n, ast.Assign) else ([n.target] if isinstance(n, ast.AnnAssign) and n.value is not None else [])
+                    for t in tgts:
+                        for leaf in ([t] if not isinstance(t, (ast.Tuple, ast.List)) else t.elts):
+                            if isinstance(leaf, ast.Attribute) and isinstance(leaf.value, ast.Name) and leaf.value.id == "self":
+                                bad.append("%s rebinds self.%s at line %d: the dict already reported for the table keeps the old object" % (m, leaf.attr, leaf.lineno))
+            for m in ("add_index_to_table", "add_alter_to_table", "process_alter_and_index_result"):
+                if m not in oc.methods:
+                    continue
+                funcs.add(oc.methods[m].key)
+                for n in ast.walk(oc.methods[m].node):
+                    tgts = n.targets if isinstance(n, ast.Assign) else []
+                    for t in tgts:
+                        if isinstance(t, ast.Attribute) and isinstance(t.value, ast.Name) and t.value.id not in ("self",):
+                            bad.append("Output.%s rebinds %s.%s at line %d" % (m, t.value.id, t.attr, t.lineno))
+            # to_dict: the values stored are the attribute values themselves
+            tdct = bd.methods.get("to_dict")
+            if tdct is None:
+                bad.append("BaseData.to_dict not found")
+            else:
+                funcs.add(tdct.key)
+                for n in ast.walk(tdct.node):
+                    if isinstance(n, ast.Call):
+                        nm = n.func.id if isinstance(n.func, ast.Name) else ".".join(attr_path(n.func) or ())
+                        if nm in ("deepcopy", "copy.deepcopy", "copy.copy", "copy", "list", "dict") or nm.endswith(".copy"):
+                            bad.append("to_dict copies field values (%s at line %d): later ALTER / INDEX records would not reach the reported dict" % (nm, n.lineno))
+        out.append(ob("alter-handlers-mutate-in-place", not bad, dict(methods=sorted(funcs), offenders=bad), funcs, pid))
+
     if "no-shared-mutable-skeleton" in clauses:
         # C14 / C15 / C03: a module-level or class-level dict / list / set display is ONE object for the whole process.
         # Looking things up in it is fine; letting it - or, through a shallow copy, the mutable values nested in it -
